@@ -12,6 +12,7 @@ import (
 	"reflect"
 	"sort"
 	"strings"
+	"unsafe"
 
 	"github.com/networkteam/qrb"
 	"github.com/networkteam/qrb/builder"
@@ -44,6 +45,13 @@ func apiParamType(mt reflect.Type, j int) reflect.Type {
 	return nil
 }
 
+func valueOrNil(v reflect.Value) any {
+	if !v.IsValid() || (v.Kind() == reflect.Interface && v.IsNil()) {
+		return nil
+	}
+	return v.Interface()
+}
+
 func apiRender(v reflect.Value) *Render {
 	w, ok := v.Interface().(builder.SQLWriter)
 	if !ok {
@@ -56,7 +64,51 @@ func apiRender(v reflect.Value) *Render {
 var apiFamilies = []string{"SelectBuilder", "SelectSelectBuilder", "SelectDistinctBuilder", "SelectJsonSelectBuilder",
 	"FromSelectBuilder", "JoinSelectBuilder", "GroupyBySelectBuilder", "CombinationBuilder", "OrderBySelectBuilder",
 	"ForSelectBuilder", "InsertBuilder", "OnConflictInsertBuilder", "OnConflictDoUpdateInsertBuilder", "ReturningInsertBuilder",
-	"UpdateBuilder", "FromUpdateBuilder", "ReturningUpdateBuilder", "DeleteBuilder", "FromDeleteBuilder", "ReturningDeleteBuilder"}
+	"UpdateBuilder", "FromUpdateBuilder", "ReturningUpdateBuilder", "DeleteBuilder", "FromDeleteBuilder", "ReturningDeleteBuilder",
+	"WithBuilder", "WithWithBuilder", "WithSearchBuilder", "WithSearchByBuilder"}
+
+var withBuilderType = reflect.TypeOf(builder.WithBuilder{})
+
+// field reads an unexported field of a struct value (on an addressable copy).
+func field(v reflect.Value, name string) reflect.Value {
+	c := reflect.New(v.Type()).Elem()
+	c.Set(v)
+	f := c.FieldByName(name)
+	return reflect.NewAt(f.Type(), unsafe.Pointer(f.UnsafeAddr())).Elem()
+}
+
+// dumpWith encodes a WITH builder state: the list of WITH queries travels as the dump of w.Select(), a select
+// builder carrying exactly these queries; the handle types add their own fields.
+func dumpWith(d *dump.Dumper, v reflect.Value) (string, bool) {
+	sel := func(w reflect.Value) string {
+		return d.Value(w.Interface().(builder.WithBuilder).Select())
+	}
+	switch v.Type().Name() {
+	case "WithBuilder":
+		return "(wb " + sel(v) + ")", true
+	case "WithWithBuilder":
+		return "(wwb " + sel(field(v, "builder")) + ")", true
+	case "WithSearchBuilder":
+		return "(wsb " + sel(field(v, "builder")) + " " + hexs(field(v, "searchType").String()) + ")", true
+	case "WithSearchByBuilder":
+		by := field(v, "byColumnNames")
+		var ps []string
+		for i := 0; i < by.Len(); i++ {
+			e := by.Index(i)
+			if e.IsNil() {
+				ps = append(ps, "nil")
+			} else {
+				ps = append(ps, d.Value(e.Interface()))
+			}
+		}
+		return "(wsbb " + sel(field(v, "builder")) + " " + hexs(field(v, "searchType").String()) + " (" + strings.Join(ps, " ") + "))", true
+	}
+	return "", false
+}
+
+func isWithFamily(t reflect.Type) bool {
+	return strings.HasSuffix(t.PkgPath(), "qrb/builder") && strings.HasPrefix(t.Name(), "With") && t.Kind() == reflect.Struct && inFamily(t)
+}
 
 func inFamily(t reflect.Type) bool {
 	for _, n := range apiFamilies {
@@ -97,6 +149,12 @@ func encodeArgs(d *dump.Dumper, mt reflect.Type, args []reflect.Value) ([]string
 					ps = append(ps, dumpV(a))
 				}
 				out = append(out, "(exps "+strings.Join(ps, " ")+")")
+			case et.Kind() == reflect.Interface && et.NumMethod() == 0:
+				var ps []string
+				for _, a := range rest {
+					ps = append(ps, fmt.Sprintf("a%d", anyID(valueOrNil(a))))
+				}
+				out = append(out, "(anys "+strings.Join(ps, " ")+")")
 			case et.Kind() == reflect.String:
 				var ps []string
 				for _, a := range rest {
@@ -124,6 +182,20 @@ func encodeArgs(d *dump.Dumper, mt reflect.Type, args []reflect.Value) ([]string
 		a := args[idx]
 		idx++
 		switch {
+		case pt.Kind() == reflect.Interface && pt.NumMethod() == 0:
+			out = append(out, fmt.Sprintf("(any a%d)", anyID(valueOrNil(a))))
+		case pt.Kind() == reflect.Bool:
+			out = append(out, "(bool "+map[bool]string{true: "T", false: "F"}[a.Bool()]+")")
+		case pt.Kind() == reflect.Int || pt.Kind() == reflect.Int32 || pt.Kind() == reflect.Int64:
+			out = append(out, fmt.Sprintf("(int i%d)", a.Int()))
+		case pt.Kind() == reflect.Slice && isExp(pt.Elem()):
+			var ps []string
+			for i := 0; i < a.Len(); i++ {
+				ps = append(ps, dumpV(a.Index(i)))
+			}
+			out = append(out, "(exps "+strings.Join(ps, " ")+")")
+		case pt == withBuilderType:
+			out = append(out, "(with "+d.Value(a.Interface().(builder.WithBuilder).Select())+")")
 		case isExp(pt):
 			out = append(out, "(exp "+dumpV(a)+")")
 		case pt.Kind() == reflect.String:
@@ -159,13 +231,80 @@ func runAPI(out io.Writer, seed int64, n int, depth int) {
 				ok = false
 			}
 		}()
+		if isWithFamily(v.Type()) {
+			return dumpWith(d, v)
+		}
+		// a CASE under construction travels as the value its End() gives
+		switch b := v.Interface().(type) {
+		case builder.CaseBuilder:
+			return d.Value(b.End()), true
+		case builder.CaseWhenBuilder:
+			return d.Value(field(v, "builder").Interface().(builder.CaseBuilder).End()), true
+		}
 		return d.Value(v.Interface()), true
 	}
 	entries := []struct {
 		name string
 		fn   reflect.Value
 	}{{"Select", reflect.ValueOf(qrb.Select)}, {"InsertInto", reflect.ValueOf(qrb.InsertInto)},
-		{"Update", reflect.ValueOf(qrb.Update)}, {"DeleteFrom", reflect.ValueOf(qrb.DeleteFrom)}}
+		{"Update", reflect.ValueOf(qrb.Update)}, {"DeleteFrom", reflect.ValueOf(qrb.DeleteFrom)},
+		{"With", reflect.ValueOf(qrb.With)}, {"WithRecursive", reflect.ValueOf(qrb.WithRecursive)},
+		{"SelectJson", reflect.ValueOf(qrb.SelectJson)}}
+	// every expression constructor / method call made while arguments and statements are generated
+	ctorBudget := n / 2
+	g.OnCall = func(name, owner string, typ reflect.Type, isMethod bool, args []reflect.Value, outv reflect.Value, prog string) {
+		if ctorBudget <= 0 || g.Rng.Intn(3) != 0 {
+			return
+		}
+		pkg, bare, _ := strings.Cut(name, ".")
+		step := apiStep{Prog: prog, Recv: "nil"}
+		mt := typ
+		margs := args
+		if isMethod {
+			if inFamily(typ.In(0)) {
+				return // the statement builders are compared in the histories below
+			}
+			step.RType, step.Method = "meth", owner+"."+bare
+			if strings.HasPrefix(owner, "JsonBuildObject") {
+				return
+			}
+			rv, ok := safeDump(args[0])
+			if !ok {
+				return
+			}
+			step.Recv = rv
+			margs = args[1:]
+		} else {
+			if pkg != "qrb" && pkg != "builder" {
+				return // package fn: the wrappers are C18's (checked from the source)
+			}
+			step.RType, step.Method = "ctor", bare
+			switch bare {
+			case "Select", "SelectJson", "InsertInto", "Update", "DeleteFrom", "With", "WithRecursive":
+				step.RType = "qrb" // the entry points of the statement model
+			case "JsonBuildObject", "Build":
+				return // the JSON object builder has its own model (C16); Build is the render handle
+			}
+			ins := []reflect.Type{reflect.TypeOf(0)}
+			for j := 0; j < typ.NumIn(); j++ {
+				ins = append(ins, typ.In(j))
+			}
+			mt = reflect.FuncOf(ins, []reflect.Type{typ.Out(0)}, typ.IsVariadic())
+		}
+		ea, ok := encodeArgs(d, mt, margs)
+		if !ok {
+			return
+		}
+		res, ok := safeDump(outv)
+		if !ok {
+			return
+		}
+		step.ID, step.Args, step.Result = id, ea, res
+		step.Render = apiRender(outv)
+		id++
+		ctorBudget--
+		enc.Encode(step)
+	}
 	for id < n {
 		var cur reflect.Value
 		prog := ""
